@@ -149,7 +149,7 @@ Proof. unfold record_of. intros E H. injection E as E1 E2 _ _ _. unfold names_ok
 
 Lemma step_names T e : names_ok (t_sess T) -> names_ok (t_sess (fst (step P T e))).
 Proof.
-  intros H. destruct T as [b s]. cbn [t_sess] in H. destruct e as [id m|t|cm| |id th m|id|cm]; unfold step; cbn [t_base t_sess].
+  intros H. destruct T as [b s]. cbn [t_sess] in H. destruct e as [id m|t|cm| |id th m|id|cm|id sv|id|id m]; unfold step; cbn [t_base t_sess].
   - destruct (rel_time b (p_time m)) as [b' rel].
     pose proof (log_message_names s id rel m H) as G. destruct (log_message P s id rel m). exact G.
   - exact H.
@@ -164,6 +164,11 @@ Proof.
     pose proof (process_command_record command_fuel (set_pause s true (s_quit s)) cm) as G.
     destruct (process_command command_fuel _ cm) as [s1 o]. cbn [fst] in *.
     eapply record_names; [exact G|exact H].
+  - destruct id as [|c0 id]; [exact H|]. cbn [fst t_sess]. apply open_conn_names. exact H.
+  - cbn [fst t_sess]. apply close_conn_names. exact H.
+  - destruct (rel_time b (p_time m)) as [b' rel].
+    pose proof (conn_message_names s id rel m H) as G.
+    destruct (conn_message P s id rel m) as [[[s1 o] err] st]. exact G.
 Qed.
 
 (* C04: in every reachable state (log mode and gdb mode, any events) the i-th connection ever
